@@ -76,3 +76,9 @@ func VerifH_serial_aesgcm() {
 	verifh.CheckKeyRoundTrip(k, &keySerializer{}, &keyParser{}, &parametersSerializer{}, &parametersParser{}, pk, id, typeURL, tinkpbSymmetric)
 }
 const tinkpbSymmetric = tinkpb.KeyData_SYMMETRIC
+
+func VerifH_c18_aesgcm() {
+	verifrt.EngineOnly()
+	a, _, _ := build()
+	verifh.CheckAEADShared(a)
+}
